@@ -250,6 +250,22 @@ def check(run, replay=None):
     missing = [p for p in cxx2coq.C15_PGNS if p not in REF or REF[p]['setter'] not in FN or not FN[REF[p]['setter']]['translated']]
     if missing:
         run.broken.append('listed PGNs without a translated setter / reference layout: %s' % missing)
+    # the enumerators an application names (N2kWind_True_boat ...) against the published code table: the packing code cannot show a
+    # renumbered enumeration, because it writes whatever value the name has (seed C15-17)
+    import json as _json
+    codes = _json.load(open(os.path.join(os.path.dirname(os.path.abspath(__file__)), 'ref_enum_codes.json')))['types']
+    now = {t: dict((n, v) for n, v in vals) for t, vals in META.get('enums', {}).items()}
+    bad = ['%s::%s is %s in src/N2kTypes.h, the published code is %d' % (t, n, now.get(t, {}).get(n, 'missing'), v)
+           for t, tab in sorted(codes.items()) for n, v in sorted(tab.items()) if now.get(t, {}).get(n) != v]
+    run.cov['enumerator_codes'] = {'types': len(codes), 'enumerators': sum(len(t) for t in codes.values()), 'mismatches': len(bad)}
+    if bad:
+        enum_replay = bool(replay) and any(l.startswith('ENUM ') for l in vlib.read_replay(replay))
+        if not replay or enum_replay:
+            run.violation(vlib.write_replay(run.pid, 'enumerators-%d' % run.seed, {'property': run.pid, 'family': 'enumerators', 'seed': run.seed,
+                          'failed': 'published enumerator codes (tools/ref_enum_codes.json) against the enumerator values clang reads from the source',
+                          'what': 'enum:' + '; '.join(bad[:8])}, ['ENUM ' + b for b in bad]))
+    if replay and any(l.startswith('ENUM ') for l in vlib.read_replay(replay)):
+        return          # the replay of an enumerator finding is the table comparison above
     ob = META.get('obligations', {})
     lay = ob.get('layout', [])
     built = run.cov['discharged'] == run.cov['obligations'] and run.cov['obligations'] > 0
@@ -324,9 +340,14 @@ def check(run, replay=None):
                 ndev = r.choice([1, 2])
                 i = r.randrange(ndev)
                 ops = []
-                for _k in range(r.randint(1, 4)):
-                    if r.random() < 0.5:
-                        ops.append('I %d %d %d %d' % (i, r.choice([255, 0, 1, 5, 7]), r.choice([255, 0, 1, 3, 31]), r.choice([255, 0, 2, 15])))
+                nops = r.randint(1, 4)
+                for _k in range(nops):
+                    # both orders of the two configuration calls matter: each writes part of a byte the other one owns (system instance /
+                    # industry group share NAME byte 7, seed C15-18); the call that only refreshes the unique number uses the header's defaults
+                    if (r.random() < 0.5 and not (_ >= 4 and _ < 8)) or (4 <= _ < 8 and _k == 0):
+                        ops.append('I %d %d %d %d' % (i, r.choice([255, 0, 1, 5, 7]), r.choice([255, 0, 1, 3, 31]), r.choice([255, 0, 2, 15, 8, 9]) if not 4 <= _ < 8 else r.choice([8, 9, 15, 12])))
+                    elif r.random() < 0.3 or 4 <= _ < 8:
+                        ops.append('D %d %d 255 255 65535 4' % (i, r.choice([54321, 1, 2097151])))
                     else:
                         ops.append('D %d %d %d %d %d %d' % (i, r.choice([4294967295, 0, 1, 2097151, 123456]), r.choice([255, 0, 130, 200]), r.choice([255, 0, 25, 127]), r.choice([65535, 0, 275, 2047]), r.choice([255, 0, 4, 7])))
                     ops.append('Q ac 255 %d 0' % i)
